@@ -762,6 +762,14 @@ class DataFieldBase(FieldBase, metaclass=ABCMeta):
         w_l = 1 - d_l  # weights of the low point
         w_h = d_l  # weights of the high point
 
+        # points outside non-periodic axes cannot be inserted (like the compiled inserter)
+        for ax in range(grid_dim):
+            if not grid.periodic[ax] and not (
+                -0.5 <= c_l[ax] + d_l[ax] <= grid.shape[ax] - 0.5
+            ):
+                msg = "Point lies outside grid"
+                raise DomainError(msg)
+
         # apply periodic boundary conditions to grid coordinates
         c_h = c_l + 1  # support points to the right of the chosen points
         for ax in np.flatnonzero(grid.periodic):
